@@ -18,6 +18,7 @@ RULE = (
     "multiset of node-function entries == multiset of sites the reference evaluation executes for that selection "
     "(setup sites only on their first use); returned tuple == reference. non-trivial = >= 1 site that must not run "
     "(unselected / deactivated / already set up / disabled debug) and (a reused function or >= 2 calls)."
+    " Round 8-10 additions: during the last call of a history the pool may fail to start its k-th worker (RuntimeError out of submit, the work item stays queued): the call may fail with that error, no call site is entered more often than in the reference; bound-method node functions (two instances, one qualified name)."
 )
 ASSUMPTIONS = [
     "selection closure as documented (roots -> descendants, minus excluded -> descendants, restricted to targets + ancestors)",
